@@ -62,12 +62,20 @@ def match_cases(draw):
     rmax = htmsets.max_radius(depth, cap)
     hi = math.log10(min(rmax, 177.8))
 
-    wide = htmsets.pow10(-6.0, hi)
-    top = htmsets.pow10(max(-6.0, hi - 2.0), hi)
-    opts = [wide, wide, top, top, top, st.just(0.0)]
-    if rmax >= 180.0:
-        opts.append(st.just(180.0))
-    radius_st = st.one_of(opts)
+    @st.composite
+    def radius_strategy(draw):
+        kind = draw(st.integers(0, 15))
+        if kind == 5:
+            return 0.0
+        if kind == 6 and rmax >= 180.0:
+            return 180.0
+        if kind == 7:
+            return 1e-6
+        if kind <= 4:
+            return draw(htmsets.pow10(-6.0, hi))
+        return draw(htmsets.pow10(max(-6.0, hi - 2.0), hi))
+
+    radius_st = radius_strategy()
 
     # ---- set 1 -------------------------------------------------------------------------
     k1 = draw(st.sampled_from([1, 2, 4, 8]))
@@ -319,10 +327,10 @@ def check_depths(case, ctx):
     out = []
     rworst = float(su.rad.max())
     budget = 1e6 if ctx.tier == "quick" else 5e6
-    d2 = int(case["depth2"])
-    while d2 > 1 and (htmsets.tri_count(rworst, d2) > htmsets.cap() or
-                      htmsets.tri_count(rworst, d2) * su.n1 > budget):
-        d2 -= 1
+    cands = [d for d in range(1, 14) if d != int(case["depth"]) and
+             htmsets.tri_count(rworst, d) <= htmsets.cap(*((2e3, 2e3) if ctx.tier == "quick" else (5e4, 5e4)))
+             and htmsets.tri_count(rworst, d) * su.n1 <= budget]
+    d2 = cands[int(case["depth2"]) % len(cands)] if cands else int(case["depth"])
     for d in (int(case["depth"]), d2):
         res = must(esutil.htm.HTM(d).match, su.ra1_c, su.dec1_c, su.ra2_c, su.dec2_c, su.rad_c,
                    maxmatch=su.maxmatch)
